@@ -339,6 +339,7 @@ CPPPreprocessor() {
   _unget = '\0';
   _last_c = '\0';
   _start_of_line = true;
+  _start_of_line_before = true;
   _last_cpp_comment = false;
   _save_comments = true;
 
@@ -1498,9 +1499,15 @@ skip_comment(int c) {
   while (c == '/') {
     int next_c = peek();
     if (next_c == '*') {
+      // A comment is replaced by one blank, so whatever follows it is at the
+      // start of the line exactly if the comment was.
+      bool start_of_line = _start_of_line_before;
       get();
       _last_cpp_comment = false;
       c = skip_c_comment(get());
+      if (start_of_line && (c == '#' || (c != '\n' && isspace(c)))) {
+        _start_of_line = true;
+      }
     } else if (next_c == '/') {
       get();
       c = skip_cpp_comment(get());
@@ -3299,6 +3306,7 @@ get() {
     c = '\n';
   }
 
+  _start_of_line_before = _start_of_line;
   if (c == '\n') {
     _start_of_line = true;
   } else if (!isspace(c) && c != '#') {
